@@ -29,5 +29,17 @@ def correspondence(ctx):
         seen.add(k)
         out["disagreements"].append(f"{a} :: {b}"[:300])
         out["failing_inputs"].append({"key": k, "what": f"{a}: {b}"[:400], "code": c05.operator_replay(ctx.seed, ctx.tier, k)})
-    out["ok"] = out["ok"] and not seen
+    # scaling / addition written through out= and the in-place operators on NumPy arrays with permuted field order (by name)
+    from harness import arrays
+    lp, _, _ = arrays.c19_run(ctx)
+    lseen = set()
+    for k, d in lp:
+        if k.startswith(("out-layout", "out-raises")) and k not in lseen:
+            lseen.add(k)
+            out["disagreements"].append(f"{k}: {d}"[:300])
+            out["failing_inputs"].append({"key": k, "what": d[:400], "code": (
+                "import sys; sys.path.insert(0, %r); sys.path.insert(0, %r)\nfrom harness import arrays\nclass X: seed=%d; tier=%r\n"
+                "problems, _, _ = arrays.c19_run(X)\nhit=[d for k, d in problems if k==%r]\nassert not hit, hit[0]\n"
+                % (C.VERIF, C.VERIF + "/tools", ctx.seed, ctx.tier, k))})
+    out["ok"] = out["ok"] and not seen and not lseen
     return out
